@@ -39,7 +39,7 @@ def run(seed):
         shutil.rmtree(wt, ignore_errors=True)
 
 allres = {}
-with ThreadPoolExecutor(8) as ex:
+with ThreadPoolExecutor(14) as ex:
     for seed, res in ex.map(run, seeds):
         allres[seed] = res
         own = seed[:3]
